@@ -96,7 +96,36 @@ pub fn generate(g: &mut G, _index: u64) -> Scenario {
             ops.push(Op::Stop { h: PRIMARY })
         }
     };
-    match g.below(13) {
+    match g.below(15) {
+        13 | 14 => {
+            // a random choreography of 2-4 join futures: created, polled, moved to tasks of
+            // their own, passed over, dropped - then the actor is stopped (or let go of) and
+            // whatever is left is awaited: everything resolves, at most one gets the value
+            let n = g.range(2, 4);
+            for _ in 0..n {
+                ops.push(Op::JoinStart { h: PRIMARY });
+            }
+            let mut spawned = 0;
+            for _ in 0..g.range(2, 8) {
+                ops.push(match g.below(8) {
+                    0 | 1 | 2 => Op::JoinPoll,
+                    3 | 4 => Op::JoinRotate,
+                    5 => Op::JoinDiscard,
+                    6 => {
+                        spawned += 1;
+                        Op::JoinSpawn
+                    }
+                    _ => Op::Yield(g.range(1, 2) as u32),
+                });
+            }
+            stop(ops);
+            for _ in 0..n {
+                ops.push(Op::JoinFinish);
+            }
+            for _ in 0..spawned {
+                ops.push(Op::JoinCollect);
+            }
+        }
         12 => {
             // three joins: the first pending in a task of its own, the second answered None while
             // the first is pending, the third begun before the actor ends - the first still gets
